@@ -539,12 +539,20 @@ def run_scenario(sc):
     The parts (item hrefs, collection hrefs, MOVE, Location) are checked independently."""
     from vlib.impl import Server
     mode, prefix, user, col, kind = sc["mode"], sc["prefix"], sc["user"], sc["col"], sc["kind"]
-    conf = {"auth": {"type": "none"}, "web": {"type": "internal"}}
+    conf = {"auth": {"type": "none"}, "web": {"type": sc.get("web", "internal")}}
     if mode == "config-full-xff":
         conf["server"] = {"script_name": prefix}
     host_hdr = X.HOSTNAME
     stats = dict(hrefs=0, requests=0)
-    with X.fast_server(conf) as srv:
+    # third prefix source: the value as written in a configuration FILE (sc["file_value"], blanks around it included)
+    server_cm = (X.file_server(sc.get("file_value", prefix), sc.get("web", "internal")) if mode == "configfile-full-xff"
+                 else X.fast_server(conf))
+    with server_cm as srv:
+        if mode == "configfile-full-xff":
+            got = srv.configuration.get("server", "script_name")
+            if got != prefix:
+                return [Fail("server.script_name read from the configuration file is not the value written there",
+                             line="script_name = %s" % sc.get("file_value", prefix), expected=prefix, got=got)], stats, []
         fr = X.Front(srv, mode, prefix, login=user + ":pw", style=sc.get("style", "strict"))
         root = os.path.join(srv.folder, "collection-root")
         try:
@@ -733,8 +741,29 @@ def gen_scenario(rng, mode=None, prefix=None):
         n = X.rand_component(rng, 8)
         if n.lower() not in [m.lower() for m in names + moves]:
             moves.append(n)
-    return dict(mode=mode, prefix=prefix, user=user, col=X.rand_component(rng, 6), kind=kind, names=names, move_names=moves,
-                style=rng.choice(["strict", "pchar"]))
+    sc = dict(mode=mode, prefix=prefix, user=user, col=X.rand_component(rng, 6), kind=kind, names=names, move_names=moves,
+              style=rng.choice(["strict", "pchar"]), web=rng.choice(["internal", "internal", "none"]))
+    if mode == "configfile-full-xff":
+        sc["prefix"], sc["file_value"] = gen_file_prefix(rng)
+    return sc
+
+
+FILE_PREFIXES = ["/dav #1 ;shared", "/a #b", "/a ;b", "/a#b", "/a;b", "/#", "/;", "/100%", "/%41", "/%(x)s", "/my app", "/é ü", "/日本",
+                 "/x\t#y", "/x\t;y", "/a = b", "/a: b", "/[dav]", "/q?x", "/a&b", "/a  b", "/a #", "/a ;", "/dav/#1/;2", "/a\\b", '/"q"', "/'q'"]
+
+
+def gen_file_prefix(rng):
+    """(value the server must use, value as written after `script_name = `): configparser strips the blanks around a value."""
+    while True:
+        v = rng.choice(FILE_PREFIXES + [X.rand_prefix(rng)] * 8)
+        if rng.random() < 0.3:
+            v = v + rng.choice([" #", " ;", " # c", " ;c", "#", ";", " %", " =", " :"]) + rng.choice(["", "x", "1 2"])
+        if not v or not X.file_value_ok(v):
+            continue
+        written = v + rng.choice(["", "", "", " ", "   ", "\t"])
+        if v != v.strip() or v.strip().endswith("/"):
+            continue
+        return v, written
 
 
 FIXED_SCENARIOS = [
@@ -752,6 +781,15 @@ FIXED_SCENARIOS += [
     # not behind a reverse proxy (no X-Forwarded-*): a collection spelled like the script name is an ordinary collection
     dict(mode="wsgi", prefix="/radicale", user="radicale", col="cal", kind="C", names=["a.ics"], move_names=["x.ics"]),
     dict(mode="proxy-strip", prefix="/radicale", user="radicale", col="radicale", kind="C", names=["radicale"], move_names=["x.ics"]),
+]
+FIXED_SCENARIOS += [
+    # server.script_name written in a configuration FILE: ' #' / ' ;' are part of the value, not comments
+    dict(mode="configfile-full-xff", prefix="/dav #1 ;shared", file_value="/dav #1 ;shared", user="u", col="cal", kind="C",
+         names=["a.ics"], move_names=["x.ics"]),
+    dict(mode="configfile-full-xff", prefix="/é 100%;x #y", file_value="/é 100%;x #y  ", user="u #1", col="c ;d", kind="C",
+         names=["a #b.ics"], move_names=["x ;y.ics"], web="none"),
+    # [web] type = none
+    dict(mode="proxy-strip", prefix="/my app", user="u", col="cal", kind="C", names=["a.ics"], move_names=["x.ics"], web="none"),
 ]
 AMBIGUOUS_SCENARIO = dict(mode="proxy-strip-xff", prefix="/radicale", user="radicale", col="cal", kind="C", names=["a.ics"],
                           move_names=["x.ics"])
@@ -894,8 +932,96 @@ def mon_same_decoding(ctx):
     ctx.count("monitor:same_decoding", checked)
 
 
+REDIRECT_STARTS = ["/", "", "/.well-known/caldav", "/.well-known/carddav", "/.well-known/caldav/", "/x/.well-known/carddav",
+                   "/.web", "/.web/", "/.web//", "//.web", "/.web/./", "/.web/x/..", "/.web/css", "/.web/index.html", "/.web/nothing"]
+REDIRECT_PREFIXES = ["/my app", "/100%", "/a#b", "/q?x", "/a;b", "/a&b=c", "/é", "/日本 語", "/%41", "/a b/c%20d", "/+", "/a:b@c", "/'\"<>"]
+
+
+def redirect_walk(fr, prefix, start):
+    """GET prefix+start as a client writes it and follow every redirect: each Location must be a percent-encoded URL
+    path below the mount prefix; the walk must not loop and must not end in a server error.
+    Returns None or (what, detail)."""
+    url = fr.client_url("/") [:-1] + urllib.parse.quote(start, safe="/") if start else fr.client_url("/")[:-1]
+    if not url:
+        url = "/"
+    first = url
+    for hop in range(6):
+        try:
+            st, h, b = fr.send("GET", url)
+        except X.LeftMount:
+            return "Location leaves the mount prefix", dict(requested=first, location=url)
+        if st in (301, 302, 303, 307, 308):
+            loc = h.get("Location", "")
+            if not X.is_wf_quoted(loc):
+                return "Location header is not a percent-encoded URL path", dict(requested=url, location=loc, status=st)
+            url = loc
+            continue
+        if st >= 500:
+            return "following the Location header ends in a server error", dict(requested=first, url=url, status=st)
+        if hop > 0 and st != 200 and not (st == 404 and start in ("/.web/css", "/.web/nothing")):
+            # (a directory of the internal web interface without index file is redirected to "dir/" and then 404)
+            return "following the Location header does not reach a page", dict(requested=first, url=url, status=st)
+        return None
+    return "redirect loop", dict(requested=first, url=url)
+
+
+def redirect_case(rc):
+    """One deployment (mode, prefix, [web] type): all redirecting paths.  Returns (failures, number of walks)."""
+    mode, prefix, web = rc["mode"], rc["prefix"], rc["web"]
+    conf = {"auth": {"type": "none"}, "web": {"type": web}}
+    if mode == "config-full-xff":
+        conf["server"] = {"script_name": prefix}
+    cm = X.file_server(rc.get("file_value", prefix), web) if mode == "configfile-full-xff" else X.fast_server(conf)
+    fails = []
+    with cm as srv:
+        fr = X.Front(srv, mode, prefix)
+        for start in rc.get("starts", REDIRECT_STARTS):
+            bad = redirect_walk(fr, prefix, start)
+            if bad:
+                fails.append((bad[0], dict(bad[1], start=start, last_requests=fr.log[-4:])))
+    return fails, len(rc.get("starts", REDIRECT_STARTS))
+
+
+def mon_redirects(ctx):
+    """Every Location the server answers, for BOTH [web] types, every redirecting path and every prefix source."""
+    rng = ctx.rng
+    cases = []
+    for web in ("internal", "none"):
+        for mode in X.MODES:
+            if mode == "none":
+                cases.append(dict(mode=mode, prefix="", web=web))
+                continue
+            pre = list(REDIRECT_PREFIXES)
+            rng.shuffle(pre)
+            for prefix in pre[:ctx.n(4, len(pre))] + [X.rand_prefix(rng) or "/r" for _ in range(ctx.n(2, 40))]:
+                rc = dict(mode=mode, prefix=prefix, web=web)
+                if mode.startswith("proxy") and prefix != prefix.strip():
+                    continue
+                if mode == "configfile-full-xff":
+                    if not X.file_value_ok(prefix) or prefix != prefix.strip():
+                        continue
+                    rc["file_value"] = prefix + rng.choice(["", " ", "\t "])
+                cases.append(rc)
+    walks, seen = 0, set()
+    for rc in cases:
+        fails, n = redirect_case(rc)
+        walks += n
+        ctx.case(("redirects", json.dumps(rc, sort_keys=True)), nontrivial=urllib.parse.quote(rc["prefix"]) != rc["prefix"])
+        ctx.count("redirects:%s:%s" % (rc["web"], rc["mode"]))
+        for what, detail in fails:
+            key = (what, rc["web"])
+            if key in seen:
+                continue
+            seen.add(key)
+            ctx.violation("C18 redirects: %s ([web] type = %s, mode %s, prefix %r, GET %r)" % (what, rc["web"], rc["mode"], rc["prefix"],
+                                                                                              detail.get("start")),
+                          dict(monitor="redirects", case=dict(rc, starts=[detail.get("start")]), detail=detail))
+    ctx.extra["monitor_redirect_walks"] = walks
+
+
 def monitors(ctx):
     rng = ctx.rng
+    mon_redirects(ctx)
     mon_same_decoding(ctx)
     mon_request_line(ctx, [X.rand_component(rng, 10, allow_dot_start=True) for _ in range(ctx.n(1500, 50000))]
                      + ["a+b", "a b", "a%20b", "a;b", "a:b@c", "é+ü", "+", "%2B"])
@@ -942,6 +1068,13 @@ def replay(ctx, path):
         got = X.get_environ_only(rep["target"])
         print("get_environ(%r) -> PATH_INFO %r, expected %r" % (rep["target"], got, rep["expected"]))
         return 0 if got == rep["expected"] else 1
+    if rep.get("monitor") == "redirects":
+        fails, n = redirect_case(rep["case"])
+        for what, detail in fails:
+            print("FAILS: %s\n %r" % (what, detail))
+        if not fails:
+            print("passes against " + core.REPO)
+        return 1 if fails else 0
     if rep.get("monitor") == "same_decoding":
         with X.fast_server(SD_CONF) as srv:
             fr = sd_front(srv, rep["base"])
